@@ -27,15 +27,22 @@ B(k) == [k |-> "basic", b |-> k]
 N(id) == [k |-> "named", id |-> id]
 P(t) == [k |-> "ptr", e |-> t]
 S(t) == [k |-> "slice", e |-> t]
+M(kt, t) == [k |-> "map", key |-> kt, e |-> t]
 INT == B("int")
 STR == B("string")
 
 FieldKinds(self) == {"i2i", "i2s", "ptrA", "ptrB", "slcA", "slcB"} \cup (IF self = "A" THEN {"valB"} ELSE {})
+\* further kinds (second program set): string -> string, and maps with a named-struct value, a converted key, a converted value
+MoreKinds == {"s2s", "mapB", "mapK", "mapV"}
 SrcT(fk) == CASE fk \in {"i2i", "i2s"} -> INT
+              [] fk = "s2s" -> STR
+              [] fk = "mapB" -> M(STR, N("B")) [] fk = "mapK" -> M(INT, INT) [] fk = "mapV" -> M(STR, INT)
               [] fk = "ptrA" -> P(N("A")) [] fk = "ptrB" -> P(N("B"))
               [] fk = "slcA" -> S(N("A")) [] fk = "slcB" -> S(N("B"))
               [] fk = "valB" -> N("B")
 TgtT(fk) == CASE fk = "i2i" -> INT [] fk = "i2s" -> STR
+              [] fk = "s2s" -> STR
+              [] fk = "mapB" -> M(STR, N("B2")) [] fk = "mapK" -> M(STR, INT) [] fk = "mapV" -> M(STR, STR)
               [] fk = "ptrA" -> P(N("A2")) [] fk = "ptrB" -> P(N("B2"))
               [] fk = "slcA" -> S(N("A2")) [] fk = "slcB" -> S(N("B2"))
               [] fk = "valB" -> N("B2")
@@ -46,10 +53,12 @@ FieldsOf(shape, id) ==
       tgt == id \in {"A2", "B2"}
   IN [i \in DOMAIN base |-> [n |-> FieldNames[i], t |-> IF tgt THEN TgtT(base[i]) ELSE SrcT(base[i])]]
 
-\* prog == [shape |-> [A, B], rootErr, extErr, rootCtx, extCtx]
+\* prog == [shape |-> [A, B], rootErr, extErr, rootCtx, extCtx, extId, wrap]
+\*   extId: a second extend function Canon(string) string on the *identical* basic pair; wrap: "none" | "using" (wrapErrorsUsing)
 RootSrc == N("A")
 RootTgt == N("A2")
-HasExt(s, t) == s = INT /\ t = STR
+ExtFn(prog, s, t) == IF s = INT /\ t = STR THEN "E" ELSE IF prog.extId /\ s = STR /\ t = STR THEN "C" ELSE ""
+HasExt(prog, s, t) == ExtFn(prog, s, t) # ""
 
 NoBody == [k |-> "none"]
 NewMethod(s, t, explicit, retErr, ctx, origin, avail) ==
@@ -99,11 +108,13 @@ CallM(st, m, seen, i, inScope) ==
 \* av = [avail: a context value can be obtained, inScope: the current method has the argument in this build]
 Conv(prog, st, m, seen, s, t, av, top) ==
   IF st.fail # "" THEN [st |-> st, seen |-> seen, ir |-> NoBody]
-  ELSE IF HasExt(s, t) THEN
+  ELSE IF ExtFn(prog, s, t) = "C" THEN
+    [st |-> st, seen |-> seen, ir |-> [k |-> "ext", fn |-> "C", retErr |-> FALSE, passCtx |-> FALSE, needCtx |-> FALSE]]
+  ELSE IF HasExt(prog, s, t) THEN
     (IF prog.extCtx /\ ~av.avail THEN Fail(st, "context-unavailable")
      ELSE LET st1 == IF prog.extCtx THEN NeedCtx(st, m, av.inScope) ELSE st
               st2 == IF st1.fail = "" /\ prog.extErr THEN NeedErr(st1, m) ELSE st1
-          IN [st |-> st2, seen |-> seen, ir |-> [k |-> "ext", retErr |-> prog.extErr, passCtx |-> prog.extCtx /\ av.inScope, needCtx |-> prog.extCtx]])
+          IN [st |-> st2, seen |-> seen, ir |-> [k |-> "ext", fn |-> "E", retErr |-> prog.extErr, passCtx |-> prog.extCtx /\ av.inScope, needCtx |-> prog.extCtx]])
   ELSE LET hit == Lookup(st.ms, s, t, av.avail) IN
     IF hit = -1 THEN Fail(st, "context-unavailable")
     ELSE IF hit # 0 THEN CallM(st, m, seen, hit, av.inScope)
@@ -132,11 +143,15 @@ Rule(prog, st, m, seen, s, t, av, top) ==
      FieldsLoop(prog, st, m, seen, FieldsOf(prog.shape, s.id), FieldsOf(prog.shape, t.id), 1, <<>>, av, top)
   ELSE IF s.k = "slice" /\ t.k = "slice" THEN
      LET r == Conv(prog, st, m, seen, s.e, t.e, av, FALSE) IN [r EXCEPT !.ir = [k |-> "slice", x |-> r.ir]]
+  ELSE IF s.k = "map" /\ t.k = "map" THEN                                  \* Map.Assign: the key is built first, then the value
+     LET rk == Conv(prog, st, m, seen, s.key, t.key, av, FALSE)
+         rv == Conv(prog, rk.st, m, rk.seen, s.e, t.e, av, FALSE)
+     IN [rv EXCEPT !.ir = [k |-> "map", kx |-> rk.ir, vx |-> rv.ir]]
   ELSE Fail(st, "mismatch")
 
 FieldsLoop(prog, st, m, seen, sfs, tfs, i, acc, av, top) ==
   IF st.fail # "" THEN [st |-> st, seen |-> seen, ir |-> NoBody]
-  ELSE IF i > Len(tfs) THEN [st |-> st, seen |-> seen, ir |-> [k |-> "struct", fs |-> acc]]
+  ELSE IF i > Len(tfs) THEN [st |-> st, seen |-> seen, ir |-> [k |-> "struct", fs |-> acc, names |-> [j \in DOMAIN tfs |-> tfs[j].n]]]
   ELSE LET r == Conv(prog, st, m, seen, sfs[i].t, tfs[i].t, av, FALSE)
        IN FieldsLoop(prog, r.st, m, r.seen, sfs, tfs, i + 1, Append(acc, [src |-> i, x |-> r.ir]), av, top)
 
@@ -172,11 +187,13 @@ RECURSIVE Calls(_), HasFallibleExt(_), Exts(_)
 Calls(ir) ==
   CASE ir.k = "call" -> {ir}
     [] ir.k \in {"ptrptr", "valptr", "slice"} -> Calls(ir.x)
+    [] ir.k = "map" -> Calls(ir.kx) \cup Calls(ir.vx)
     [] ir.k = "struct" -> UNION {Calls(ir.fs[i].x) : i \in DOMAIN ir.fs}
     [] OTHER -> {}
 Exts(ir) ==
   CASE ir.k = "ext" -> {ir}
     [] ir.k \in {"ptrptr", "valptr", "slice"} -> Exts(ir.x)
+    [] ir.k = "map" -> Exts(ir.kx) \cup Exts(ir.vx)
     [] ir.k = "struct" -> UNION {Exts(ir.fs[i].x) : i \in DOMAIN ir.fs}
     [] OTHER -> {}
 HasFallibleExt(ir) == \E e \in Exts(ir) : e.retErr
@@ -198,9 +215,16 @@ Outcome(g) == IF ~g.converged THEN "diverges" ELSE IF g.st.fail # "" THEN "fail"
 DirNames == {"p", "source", "target", "context", "c", "fmt"}
 AliasShadowed(prog, dir) == dir \in {"source", "c"} \/ (dir = "context" /\ prog.rootCtx)
 
-Progs == { [shape |-> [A |-> a, B |-> b], rootErr |-> re, extErr |-> xe, rootCtx |-> rc, extCtx |-> xc] :
+Progs == { [shape |-> [A |-> a, B |-> b], rootErr |-> re, extErr |-> xe, rootCtx |-> rc, extCtx |-> xc, extId |-> FALSE, wrap |-> "none"] :
              a \in Shapes("A"), b \in Shapes("B"), re \in BOOLEAN, xe \in BOOLEAN, rc \in BOOLEAN, xc \in BOOLEAN }
+\* second program set: maps, string -> string, the identity-pair extend function, wrapErrorsUsing
+AllKindsA == FieldKinds("A") \cup MoreKinds
+ShapesMore == {<<a>> : a \in AllKindsA} \cup {<<a, b>> : a \in AllKindsA, b \in AllKindsA}
+ProgsMore == { [shape |-> [A |-> a, B |-> b], rootErr |-> eb[1], extErr |-> eb[2], rootCtx |-> FALSE, extCtx |-> FALSE, extId |-> xi, wrap |-> w] :
+                 a \in {x \in ShapesMore : \E i \in DOMAIN x : x[i] \in MoreKinds}, b \in {<<"i2i">>, <<"i2s">>, <<"i2s", "ptrB">>, <<"s2s", "i2s">>},
+                 eb \in {<<TRUE, TRUE>>, <<FALSE, FALSE>>, <<TRUE, FALSE>>}, xi \in BOOLEAN, w \in {"none", "using"} }
 \* programs in which B is reachable from A (otherwise B's shape is irrelevant): one representative shape for B
 Reaches(a) == \E i \in DOMAIN a : a[i] \in {"ptrB", "slcB", "valB"}
-ProgsR == {p \in Progs : Reaches(p.shape.A) \/ p.shape.B = <<"i2i">>}
+Reaches2(a) == \E i \in DOMAIN a : a[i] \in {"ptrB", "slcB", "valB", "mapB"}
+ProgsR == {p \in Progs : Reaches(p.shape.A) \/ p.shape.B = <<"i2i">>} \cup {p \in ProgsMore : Reaches2(p.shape.A) \/ p.shape.B = <<"i2i">>}
 =============================================================================
